@@ -6,7 +6,10 @@
 EXTENDS Naturals, FiniteSets, Sequences, TLC, Json, IOUtils
 CONSTANT Mode     \* "C07": task life cycle only; "C08": stop()/worker-count obligations as well
 VARIABLES x, l, ts, inClear, inStop, stopped, live, mx,
-          mxHi   \* the largest maximum configured so far: workers spawned under it may still be alive after it was lowered
+          mxHi,  \* the largest maximum configured so far: workers spawned under it may still be alive after it was lowered
+          retd,  \* tasks whose start() call has returned
+          pre    \* pre[k]: the tasks whose start() had returned when k was submitted -- those were certainly submitted before k
+                 \* (two client threads may be inside start() at once: their order in the queue is not observable)
 Ev == ndJsonDeserialize(IOEnv.TRACE_EVENTS)
 Ix == ndJsonDeserialize(IOEnv.TRACE_INDEX)
 Diag == "TRACE_DIAG" \in DOMAIN IOEnv /\ IOEnv.TRACE_DIAG = "1"
@@ -18,15 +21,17 @@ E == Ev[l]
 Waiting == {k \in TTasks : ts[k] = "submitted"}
 TInit == /\ x \in 1..Len(Ix) /\ l = Ix[x].s + 1
          /\ Ev[Ix[x].s].e = "Begin" /\ mx = Ev[Ix[x].s].n /\ mxHi = mx
+         /\ retd = {} /\ pre = [k \in TTasks |-> {}]
          /\ ts = [k \in TTasks |-> "none"] /\ inClear = FALSE /\ inStop = FALSE /\ stopped = FALSE /\ live = {}
 
 P == INSTANCE PoolP WITH Tasks <- TTasks, Threads <- TThreads, MaxThreads <- 1   \* the maximum is passed per action (M variants)
 
 Is(name) == l <= Ix[x].e /\ E.e = name
-Adv == l' = l + 1 /\ UNCHANGED <<x, mx, mxHi>>
-TNext == \/ Is("Submit") /\ P!Submit(E.k) /\ Adv
-         \/ Is("StartRet") /\ UNCHANGED <<ts, inClear, inStop, stopped, live>> /\ Adv
-         \/ Is("RunBegin") /\ P!RunBeginM(E.k, mxHi) /\ Adv   \* submission order only while there never was more than one worker
+Adv0 == l' = l + 1 /\ UNCHANGED <<x, mx, mxHi>>
+Adv == Adv0 /\ UNCHANGED <<retd, pre>>
+TNext == \/ Is("Submit") /\ P!Submit(E.k) /\ pre' = [pre EXCEPT ![E.k] = retd] /\ UNCHANGED retd /\ Adv0
+         \/ Is("StartRet") /\ retd' = retd \cup {E.k} /\ UNCHANGED <<ts, inClear, inStop, stopped, live, pre>> /\ Adv0
+         \/ Is("RunBegin") /\ P!RunBeginB(E.k, mxHi, pre[E.k]) /\ Adv   \* submission order only while there never was more than one worker
          \/ Is("RunEnd") /\ P!RunEnd(E.k) /\ Adv
          \/ Is("Destroy") /\ P!Destroy(E.k) /\ Adv
          \/ Is("ClearCall") /\ P!ClearCall /\ Adv
@@ -36,10 +41,10 @@ TNext == \/ Is("Submit") /\ P!Submit(E.k) /\ Adv
          \/ Is("WorkerStart") /\ P!WorkerStartM(E.w, IF Mode = "C08" THEN mx ELSE 1000) /\ Adv
          \/ Is("WorkerExit") /\ P!WorkerExit(E.w) /\ Adv
          \/ Is("MaxSet") /\ mx' = E.n /\ mxHi' = (IF E.n > mxHi THEN E.n ELSE mxHi) /\ l' = l + 1
-                          /\ UNCHANGED <<x, ts, inClear, inStop, stopped, live>>
+                          /\ UNCHANGED <<x, ts, inClear, inStop, stopped, live, retd, pre>>
          \/ Is("Quiescent") /\ P!Quiescent /\ Adv
          \/ Is("Done") /\ P!Done /\ Adv
-TSpec == TInit /\ [][TNext]_<<x, l, ts, inClear, inStop, stopped, live, mx, mxHi>>
+TSpec == TInit /\ [][TNext]_<<x, l, ts, inClear, inStop, stopped, live, mx, mxHi, retd, pre>>
 Accepted == (l = Ix[x].e + 1) => PrintT(<<"ACCEPTED", x>>)
 Progress == Diag => PrintT(<<"AT", x, l>>)
 =============================================================================
